@@ -146,9 +146,45 @@ func runC05(r *mc.Run) {
 			o.CheckRevocations = false // L1: CRLs must not matter at all
 		}
 		err := world.SafeVerifyRaw(w.Raw(), o)
-		// reference condition
-		pckGood := endpoints[pep] == "ok" && pckSigners[psg].ok && pckSets[ps].benign
-		rootGood := endpoints[rep] == "ok" && rootSigners[rsg].ok && rootSets[rs].benign && dpBenign
+		// reference condition, evaluated on the bytes each endpoint actually served
+		crlGood := func(resp world.Response, ca *x509.Certificate, targets ...*big.Int) bool {
+			if resp.Err != nil {
+				return false
+			}
+			crl, perr := x509.ParseRevocationList(resp.Body)
+			if perr != nil || crl.Issuer.String() != ca.Subject.String() || crl.CheckSignatureFrom(ca) != nil {
+				return false
+			}
+			for _, rc := range crl.RevokedCertificateEntries {
+				for _, t := range targets {
+					if rc.SerialNumber.Cmp(t) == 0 {
+						return false
+					}
+				}
+			}
+			return true
+		}
+		pckGood := crlGood(g.Responses[pckCrlURL], pki.Inter, leafSN)
+		rootGood := false
+		switch dps[dp] {
+		case "one":
+			rootGood = crlGood(g.Responses[world.RootCRLURL], pki.Root, interSN, tcbSN, qeSN)
+		case "none":
+		default:
+			// the first distribution point that answers with a parseable CRL is the one obtained
+			for _, u := range []string{world.RootCRLURL, dp2} {
+				resp := g.Responses[u]
+				if resp.Err != nil {
+					continue
+				}
+				if _, perr := x509.ParseRevocationList(resp.Body); perr != nil {
+					continue
+				}
+				rootGood = crlGood(resp, pki.Root, interSN, tcbSN, qeSN)
+				break
+			}
+		}
+		_ = dpBenign
 		cond := pckGood && rootGood
 		out := verdict(err)
 		detail := map[string]any{"pck_crl_hex": hexs(g.Responses[pckCrlURL].Body), "root_crl_hex": hexs(rootResp.Body), "urls": g.Log}
